@@ -497,6 +497,8 @@ def run(ctx):
     corr.info["stacks_reject_catalogue"] = len(cat)
     corr.info["stacks_reject_auto"] = len(g["autos"])
     corr.info["conversion_pairs"] = len(g["convs"])
+    from harness import ldlib      # the kind model knows float and double; stacks over long double coordinates are compiled and run here
+    ldlib.part(ctx, corr, ["clamp", "backup", "nn", "linear", "affine"], "compile_matrix", cfgs=("dbg",))
     if not ctx.quick:
         cuda_subcheck(ctx, corr)
     corr.notes.append("catalogue gaps: identity's first static_assert (equal dimensions) and linear's is_object assert cannot be violated by any "
@@ -508,6 +510,12 @@ def run(ctx):
 
 def replay(ctx):
     c = ctx.replay["case"]
+    if c.get("op") == "longdouble":
+        from harness import ldlib
+        corr = Corr()
+        corr.add_obl("compile_matrix")
+        ldlib.part(ctx, corr, c["ops"], "compile_matrix", cfgs=(c.get("cfg", "dbg"),))
+        return corr
     if c.get("raw"):
         return evaluate(ctx, [], [], [], [], {}, sizeof=False, raw=[r for r in RAW if r[0] == c["raw"]])
     s = K.parse_desc(c["stack"].split())
